@@ -49,8 +49,13 @@ class SchemaField:
         Raises:
             FIXMessageError: raised if validation failed
         """
-        assert isinstance(value, str), "value must be a string"
-        assert value, "empty value"
+        if not isinstance(value, str):
+            # e.g. the decoder's marker for a tag that was given twice
+            raise FIXMessageError(
+                f"Field={self.name} value must be a string, got {value!r}"
+            )
+        if not value:
+            raise FIXMessageError(f"Field={self.name} has an empty value")
 
         if self.values:
             if value not in self.values:
